@@ -8,8 +8,8 @@ package main
 // Interest - for the Data name itself and for every shorter CanBePrefix Interest.
 //
 // This pass is exhaustive over thread counts 1..8 and 16, a family of names (the universe of the
-// search plus siblings, so that the hashes spread over the threads) and every non-empty prefix of
-// each name. It uses the REAL code end to end: both packets arrive through a real
+// search plus siblings, so that the hashes spread over the threads) and every prefix of
+// each name and the empty prefix "/". It uses the REAL code end to end: both packets arrive through a real
 // NDNLPLinkService (fwsim.Config.RealLinkService), i.e. dispatchInterest / dispatchData choose the
 // thread; the driven thread is the one fw.HashNameToFwThread picks for the Interest.
 
@@ -37,7 +37,9 @@ func dispatchPass(rep *report.Reporter) map[string]any {
 		fwsim.New(fwsim.Config{Threads: n}) // fw.Threads has n entries from here on
 		for _, name := range dispatchNames() {
 			comps := strings.Split(strings.TrimPrefix(name, "/"), "/")
-			for l := 1; l <= len(comps); l++ {
+			// l = 0: the zero-component name "/" with CanBePrefix is a pending Interest every Data
+			// name extends
+			for l := 0; l <= len(comps); l++ {
 				prefix := "/" + strings.Join(comps[:l], "/")
 				cases++
 				// which thread does the real dispatch pick for the Interest?
@@ -73,7 +75,11 @@ func dispatchPass(rep *report.Reporter) map[string]any {
 					delivered++
 					continue
 				}
-				rep.Add(report.Violation{Clause: "C01.each", Key: "token-less Data from a local producer face is not dispatched to the forwarding thread holding the pending Interest",
+				key := "token-less Data from a local producer face is not dispatched to the forwarding thread holding the pending Interest"
+				if l == 0 {
+					key += " for the zero-component name /"
+				}
+				rep.Add(report.Violation{Clause: "C01.each", Key: key,
 					Detail: fmt.Sprintf("%d forwarding threads: Interest %s (pending on thread %d = HashNameToFwThread(%s), face N3) is satisfied by Data %s arriving without PIT token on local face L1, but N3 received %d copies; HashNameToAllPrefixFwThreads(%s) = %v", n, prefix, holder, prefix, name, got, name, set),
 					Replay: map[string]any{"pass": "dispatch", "threads": n, "interest": prefix, "data": name}})
 			}
